@@ -54,3 +54,68 @@ def rebinds(cls_info, attr):
                     if A.self_attr(x, ps[0]) == attr:
                         out.append((m, n))
     return out
+
+
+_COPYING = {"len", "isinstance", "tuple", "list", "set", "frozenset", "sorted", "dict", "str", "int", "bool", "any", "all", "sum", "min", "max",
+            "repr", "hash", "id", "print", "getattr", "hasattr", "pjoin", "abspath", "normpath", "format", "join"}
+
+
+def kept_by_reference(cls_info):
+    """{attr: [(keeper_attr, stmt)]} — ``self.keeper = F(... self.attr ...)`` in __init__ where F is not a copying builtin and
+    the argument is not star-expanded: the keeper object holds the *object* currently bound to ``self.attr``."""
+    init = cls_info.methods.get("__init__")
+    out = {}
+    if init is None or not init.params():
+        return out
+    me = init.params()[0]
+    for st in A.body_walk(init.node):
+        if not (isinstance(st, ast.Assign) and isinstance(st.value, ast.Call)):
+            continue
+        keepers = [A.self_attr(t, me) for t in st.targets if A.self_attr(t, me)]
+        if not keepers:
+            continue
+
+        def visit(call):
+            fn = A.unparse(call.func).split(".")[-1]
+            if fn in _COPYING:
+                return
+            for arg in list(call.args) + [k.value for k in call.keywords]:
+                if isinstance(arg, ast.Starred):
+                    continue
+                a = A.self_attr(arg, me)
+                if a and a not in keepers:
+                    for k in keepers:
+                        out.setdefault(a, []).append((k, st))
+                elif isinstance(arg, ast.Call):
+                    visit(arg)
+        visit(st.value)
+    return out
+
+
+def _immutable_init(cls_info, attr):
+    init = cls_info.methods["__init__"]
+    me = init.params()[0]
+    for st in A.body_walk(init.node):
+        if isinstance(st, ast.Assign) and any(A.self_attr(t, me) == attr for t in st.targets):
+            v = st.value
+            if isinstance(v, (ast.Tuple, ast.Constant)) or (isinstance(v, ast.Call) and A.unparse(v.func) in ("tuple", "frozenset", "str", "int")):
+                return True
+    return False
+
+
+def detached_keepers(cls_info):
+    """[(FuncInfo, node, attr, keeper)] — a method other than __init__ rebinds ``self.attr`` (``=`` or an augmented assignment on an
+    immutable such as a tuple) while the keeper built from it in __init__ is not rebuilt in the same method: the keeper
+    goes on using the object it was given and never sees the new value."""
+    out = []
+    kept = kept_by_reference(cls_info)
+    for attr, ks in kept.items():
+        for m, n in rebinds(cls_info, attr):
+            me = m.params()[0]
+            if isinstance(n, ast.AugAssign) and not _immutable_init(cls_info, attr):
+                continue  # `+=` on a list / set / dict updates the captured object in place
+            rebuilt = {A.self_attr(t, me) for s in A.body_walk(m.node) if isinstance(s, ast.Assign) for t in s.targets}
+            for keeper, st in ks:
+                if keeper not in rebuilt:
+                    out.append((m, n, attr, keeper))
+    return out
